@@ -271,7 +271,10 @@ class DiffusionModel(GenericModel):
             Type of boundary condition on right side. Either BoundaryConditions.FLUX_BC or BoundaryConditions.COMPOSITION_BC
         RBCvalue : float
             Value of right boundary condition
+        element : str
+            Element to apply boundary conditions to. If None, will use first independent element
         '''
+        element = self.elements[0] if element is None else element
         self.boundaryConditions.setBoundaryCondition(BoundaryConditions.LEFT, 
                                                                 LBCtype, LBCValue, element)
         self.boundaryConditions.setBoundaryCondition(BoundaryConditions.RIGHT,
